@@ -83,7 +83,7 @@ func c03(r *core.Run) {
 	r.Rule("S4", "workers counted: WaitGroup.Add operand and the go-loop bound are the same configuration field; the worker defers Done in its entry block; after every (re-)acquire or wait the worker tests the queue for nil before waiting or popping, and the nil edge reaches return without waiting or draining", 4)
 	r.Rule("S5", "started-check: enqueue, and in every exported Service method every call that may reach Conn.Publish (not through enqueue), is dominated by the state==started edge", 6)
 	r.Rule("N0", "closed queue stays closed: every store of a possibly non-nil value to the work queue outside serve's initialisation happens, within its critical section, after the queue was observed non-nil", 3)
-	r.Rule("N1", "connection field stable while serving: the connection field is written only by serve's initialisation (a write elsewhere races with publishing entry points that passed the started-check)", 1)
+	r.Rule("N1", "connection fields stable while serving: the connection and in-channel fields are written only by serve's initialisation (a write elsewhere races with publishing entry points and with Serve's subscribe, which passed the started-check)", 2)
 
 	a, e := queueEngine(r, "S1")
 	if e == nil {
@@ -493,15 +493,15 @@ func c03(r *core.Run) {
 			firstGo = c
 		}
 	}
-	for _, ac := range core.FieldAccesses(root, func(f core.Field) bool { return f == a.NC }) {
-		if !ac.Write {
+	for _, ac := range core.FieldAccesses(root, func(f core.Field) bool { return f == a.NC || f == a.InCh }) {
+		if !ac.Write || ac.Kind == "close" {
 			continue
 		}
 		if ac.Fn == a.Serve && firstGo != nil && core.Dominates(ac.Instr, firstGo) {
-			r.OK("N1", core.FuncName(ac.Fn), "store("+a.NC.String()+"):init", p.InstrPos(ac.Instr), "written during initialisation, before any other goroutine of this run exists")
+			r.OK("N1", core.FuncName(ac.Fn), "store("+ac.F.String()+"):init", p.InstrPos(ac.Instr), "written during initialisation, before any other goroutine of this run exists")
 			continue
 		}
-		r.Bad("N1", core.FuncName(ac.Fn), "store("+a.NC.String()+")", p.InstrPos(ac.Instr), "the connection field is written outside serve's initialisation with no lock: publishing entry points (Reset, TokenEvent, event, reply) that passed the started-check read it concurrently -> nil-pointer panic / data race")
+		r.Bad("N1", core.FuncName(ac.Fn), "store("+ac.F.String()+")", p.InstrPos(ac.Instr), "a per-run connection field is written outside serve's initialisation with no lock: publishing entry points (Reset, TokenEvent, event, reply) and Serve's own subscribe, which passed the started-check, read it concurrently -> nil-pointer panic / data race")
 	}
 }
 
